@@ -758,8 +758,8 @@ func c20(c *core.Ctx) {
 						if !isF || core.NamedOf(base.Type()) != tn {
 							return
 						}
-						if pt, ok := x.Val.Type().Underlying().(*types.Pointer); !ok || core.NamedOf(pt.Elem()) != "frame" {
-							return
+						if core.NamedOf(x.Val.Type()) != "frame" {
+							return // neither *frame nor a frame value
 						}
 						possible, isRecv := parkedKinds(kinds, x)
 						if !isRecv {
@@ -837,8 +837,13 @@ func c20(c *core.Ctx) {
 					if !isF || core.NamedOf(base.Type()) != tn {
 						return
 					}
-					if pt, ok := x.Val.Type().Underlying().(*types.Pointer); !ok || core.NamedOf(pt.Elem()) != "frame" {
+					if core.NamedOf(x.Val.Type()) != "frame" {
 						return
+					}
+					if ld, isLd := x.Val.(*ssa.UnOp); isLd && ld.Op == token.MUL {
+						if al, isAl := ld.X.(*ssa.Alloc); isAl && len(core.StoresTo(al)) == 0 {
+							return // a frame literal (the slot being cleared or given a made-up frame), not a received one
+						}
 					}
 					nH++
 					okLeave := core.MustPass(core.After(recv), x, leaves)
